@@ -5,9 +5,25 @@ from .core import Result, AnchorMissing
 from .facts import norm_ty, is_caller_code
 from .dfx import Dfx, strip, const_str, const_usize, walk, show
 
-PANICKING = ("core::panicking::", "core::option::unwrap_failed", "core::option::expect_failed", "core::result::unwrap_failed",
-             "core::option::Option::<T>::unwrap", "core::option::Option::<T>::expect", "core::result::Result::<T, E>::unwrap",
-             "core::result::Result::<T, E>::expect", "core::slice::index::")
+PANICKING = re.compile(r"^(core::panicking::.*|core::option::(unwrap_failed|expect_failed)|core::result::unwrap_failed"
+                       r"|core::option::Option::<T>::(unwrap|expect)|core::result::Result::<T, E>::(unwrap|expect|unwrap_err|expect_err)|core::slice::index::.*)$")
+# std / alloc callees that cannot panic whatever their arguments (everything else outside the crate and outside caller code is
+# treated as may-panic in the reader: e.g. Vec::with_capacity, reserve, slice indexing, String::from_utf8(..).unwrap ...)
+NOPANIC = re.compile(
+    r"^(<core::result::Result<T, E> as core::ops::Try>::branch|<core::option::Option<T> as core::ops::Try>::branch"
+    r"|<core::result::Result<T, F> as core::ops::FromResidual<.*>>::from_residual|<core::option::Option<T> as core::ops::FromResidual<.*>>::from_residual"
+    r"|core::option::Option::<T>::(ok_or_else|ok_or|is_some|is_none|as_ref|as_mut|take|map|map_or|map_or_else|and_then|unwrap_or|unwrap_or_else|unwrap_or_default|filter|zip|or|or_else|replace|insert|get_or_insert_with|is_some_and|copied|cloned)"
+    r"|core::result::Result::<T, E>::(ok|err|is_ok|is_err|map|map_err|and_then|or_else|unwrap_or|unwrap_or_else|unwrap_or_default)"
+    r"|alloc::string::String::(as_str|len|is_empty|new)|<alloc::string::String as core::ops::Deref>::deref|<alloc::string::String as core::convert::AsRef<str>>::as_ref"
+    r"|<alloc::string::String as core::borrow::Borrow<str>>::borrow"
+    r"|core::str::traits::<impl core::cmp::PartialEq for str>::(eq|ne)|core::str::<impl str>::(len|is_empty|as_bytes)"
+    r"|<alloc::string::String as core::cmp::PartialEq<&str>>::eq|<alloc::string::String as core::cmp::PartialEq<str>>::eq|<alloc::string::String as core::cmp::PartialEq>::eq"
+    r"|core::num::<impl usize>::(overflowing_|checked_|saturating_|wrapping_)\w+"
+    r"|alloc::vec::Vec::<T, A>::(len|is_empty|capacity|as_slice)|alloc::vec::Vec::<T>::new|core::slice::<impl \[T\]>::(len|is_empty)"
+    r"|core::fmt::Formatter::<'a>::write_str|core::fmt::Arguments::<'a>::\w+|core::marker::PhantomData.*"
+    r"|core::mem::(size_of|align_of|swap|replace|take|drop|forget|needs_drop)|core::cmp::(min|max)|core::cmp::Ord::(min|max|cmp)"
+    r"|core::cmp::PartialEq::(eq|ne)|core::cmp::PartialOrd::(lt|le|gt|ge|partial_cmp)|core::convert::(From|Into)::(from|into)|core::clone::Clone::clone|core::default::Default::default"
+    r")$")
 
 
 def _lits(e):
@@ -234,23 +250,56 @@ def r_serde(f):
     # (i) no panicking callee in the reader's own code
     reader_bodies = [vm] + vm.closures()
     for b in f.fn_bodies:
-        if b.name == "deserialize" and b.self_head == "TooDee":
-            reader_bodies.append(b)
-        if b.self_head == "TooDeeVisitor" and b.kind == "AssocFn" and b.id != vm.id:
-            reader_bodies.append(b)
+        if b in reader_bodies:
+            continue
+        fl_ = b.file.replace("\\", "/")
+        if not fl_.endswith("src/serde.rs"):
+            continue
+        root_b = f.by_id.get(b.d["root"], b)
+        it = norm_ty(root_b.impl_trait or "")
+        if "Serialize" in it and "Deserialize" not in it:
+            continue          # the writers
+        sig_ = norm_ty(root_b.d.get("sig") or "")
+        if re.search(r"\bSerializer\b|ser::Serialize", sig_) or any(fn_ and fn_["name"] in ("serialize_struct", "serialize_field", "serialize_seq", "serialize_map") for _, _, fn_ in root_b.calls()):
+            continue          # helpers of the writers
+        # every deserialisation-side body of the module: Deserialize / Visitor / DeserializeSeed impls, helper types' methods, closures
+        reader_bodies.append(b)
     bad = []
+    ctor_ids = {b.id for b in f.fn_bodies if b.self_head == "TooDee" and b.name in ("from_vec", "from_box", "init", "new")}
+    ncalls = 0
     for b in reader_bodies:
         for bi2, t2, fn2 in b.calls():
-            if fn2 and fn2["path"].startswith(PANICKING):
+            ncalls += 1
+            if fn2 is None:
+                bad.append((b, t2, "indirect call"))
+                continue
+            path2 = fn2.get("resolved") or fn2["path"]
+            if PANICKING.match(path2) or PANICKING.match(fn2["path"]):
                 bad.append((b, t2, fn2["path"]))
+                continue
+            if is_caller_code(fn2) or fn2.get("krate") in ("serde_core", "serde") and fn2.get("trait"):
+                continue          # the transport's / element type's code: declined (documented)
+            cb2 = f.crate_fn_for_call(fn2)
+            if cb2 is not None:
+                if cb2.id in ctor_ids or cb2 in reader_bodies or cb2.kind == "Closure":
+                    continue      # the asserting constructor is handled through its classified preconditions below
+                # any other crate function: must itself be free of panics (one level)
+                inner = [fn3["path"] for _, _, fn3 in cb2.calls() if fn3 and (PANICKING.match(fn3["path"]) or not (NOPANIC.match(fn3.get("resolved") or fn3["path"]) or NOPANIC.match(fn3["path"]) or is_caller_code(fn3) or f.crate_fn_for_call(fn3) is not None))]
+                asserts = [tt for bl in cb2.blocks for tt in [bl["term"]] if tt and tt["k"] == "assert" and not bl["cleanup"] and not tt["kind"].startswith("Overflow")]
+                if inner or asserts:
+                    bad.append((b, t2, "%s (which can panic: %s)" % (norm_ty(cb2.id), (inner + ["assert"])[:2])))
+                continue
+            if NOPANIC.match(path2) or NOPANIC.match(fn2["path"]):
+                continue
+            bad.append((b, t2, "may-panic callee " + norm_ty(path2)))
         for bi2, bl in enumerate(b.blocks):
             tt = bl["term"]
             if tt and tt["k"] == "assert" and not bl["cleanup"] and not tt["kind"].startswith("Overflow"):
                 bad.append((b, tt, "assert " + tt["kind"]))
     n += 1
-    R.inst(vm.ident, "t4 the reader's own code (%d bodies) contains no panicking call or bounds assertion" % len(reader_bodies), not bad)
+    R.inst(vm.ident, "t4 the reader's own code (%d bodies, %d calls) only calls the transport / element code, non-panicking std primitives and the asserting constructor; no division or bounds assertion" % (len(reader_bodies), ncalls), not bad)
     for b, t2, p in bad:
-        R.fail(b.ident, "t4:panic:%s" % p.split("::")[-1], "%s can panic (%s) while deserialising; it must return Err" % (b.ident, p), b.where(t2["span"]))
+        R.fail(b.ident, "t4:panic:%s" % re.sub(r"[^A-Za-z0-9_:<> ]", "", p.split("::")[-1])[:40], "%s can panic (%s) while deserialising; it must return Err" % (b.ident, p), b.where(t2["span"]))
     # (ii) constructor preconditions K_OVF, K_LEN discharged
     kinds = classify_ctor_panics(f, cb)
     dom = vm.dominators()
